@@ -10,7 +10,7 @@ from harness import laws
 
 def search_with(name):
     def search(ctx, broken):
-        out, n = getattr(laws, "search_" + name)(ctx.seed, ctx.tier)
+        out, n = getattr(laws, "search_" + name)(ctx.seed, "thorough")      # the full sweep is cheap (5-15 s): every tier runs it
         ctx.stats[f"law_cases_{name}"] = n
         return out
     return search
